@@ -401,7 +401,7 @@ func (p *specParser) postfix() (*SExpr, error) {
 // ---------- contract files ----------
 
 type Clause struct {
-	After bool // anchor fires after the matched source line has executed (instead of before it)
+	After bool   // anchor fires after the matched source line has executed (instead of before it)
 	Kind  string // requires ensures invariant assert assume
 	Match string // for assert/assume: source line substring
 	Loop  int
@@ -429,9 +429,9 @@ type Contract struct {
 	Decreases []*Clause
 	Asserts   []*Clause // assert at "text": expr   /  assume at "text": expr
 	Ghosts    []*GhostVar
-	Holds     map[string]int // lockset: mutex access path -> mode held at entry (1 read, 2 write)
-	Unguarded []string       // lockset: base access paths exempt from guard checks (unpublished objects)
-	NoWrite   []string       // access paths (x.f) this function must not assign, insert into or delete from
+	Holds     map[string]int  // lockset: mutex access path -> mode held at entry (1 read, 2 write)
+	Unguarded []string        // lockset: base access paths exempt from guard checks (unpublished objects)
+	NoWrite   []string        // access paths (x.f) this function must not assign, insert into or delete from
 	Gosync    map[string]bool // gosync x: captured variable x shared with a goroutine is synchronised by other means (stated in the contract)
 }
 
@@ -459,11 +459,12 @@ type Axiom struct {
 }
 
 type ContractSet struct {
-	Guards map[string]string    // "pkgpath.Type.field" -> guarding mutex field of the same struct
-	Funcs  map[string]*Contract // key pkgpath + "." + Func
-	Specs  map[string]*SpecFunc // key name (global namespace) and pkgpath.name
-	Axioms []*Axiom
-	Files  []string
+	Guards    map[string]string    // "pkgpath.Type.field" -> guarding mutex field of the same struct
+	LockOrder [][2]string          // lockorder A.mu B.mu: a goroutine holding B.mu must not acquire A.mu (A before B)
+	Funcs     map[string]*Contract // key pkgpath + "." + Func
+	Specs     map[string]*SpecFunc // key name (global namespace) and pkgpath.name
+	Axioms    []*Axiom
+	Files     []string
 }
 
 func newContractSet() *ContractSet {
@@ -646,6 +647,15 @@ func (cs *ContractSet) loadContractFile(path, pkgPath string) error {
 					cur.Modifies = append(cur.Modifies, m)
 				}
 			}
+		case "lockorder":
+			// lockorder TypeA.muA TypeB.muB   (file level): muA is acquired BEFORE muB - a goroutine that holds
+			// a TypeB.muB must not acquire a TypeA.muA
+			f := strings.Fields(rest)
+			if len(f) != 2 || !strings.Contains(f[0], ".") || !strings.Contains(f[1], ".") {
+				return fail(fmt.Errorf("lockorder needs: TypeA.muA TypeB.muB"))
+			}
+			cs.LockOrder = append(cs.LockOrder, [2]string{pkgPath + "." + f[0], pkgPath + "." + f[1]})
+			cur = nil
 		case "guarded":
 			// guarded Type.field[, Type.field2 ...] by mutexField   (file level; Type is of this package)
 			bi := strings.LastIndex(rest, " by ")
